@@ -231,7 +231,9 @@ static inline myth_thread_t __attribute__((always_inline)) myth_queue_pop(myth_t
     myth_wsqueue_lock_lock(&q->lock);
     base = q->base;
     if (base <= top){//OK
+      MYTH_VERIF_POINT(mythv_p_q_pop_slot, q->ptr[top]);
       ret = q->ptr[top];
+      MYTH_VERIF_POINT(mythv_p_q_pop_slot, q->ptr[top]);
       q->ptr[top] = NULL;
       if (top <= base) {
 	//invalidate cache
